@@ -301,6 +301,12 @@ def gen_quantity(rng, dialect, width, Quantity):
     u, uc, urep = gen_units(rng, dialect)
     r = rng.random()
     odl = dialect in ("ODL", "PDS3")
+    if r < 0.04:
+        # a boolean or None with units: fine in PVL (units may follow any
+        # value); no number, so ODL/PDS3 must refuse (bool is an int to Python)
+        v = rng.choice((True, False, None))
+        return Leaf(Quantity(v, u), f"quantity:{'none' if v is None else 'bool'}:{uc}",
+                    urep and not odl)
     if r < 0.75 or (odl and r < 0.88):
         n = gen_number(rng)
         return Leaf(Quantity(n.value, u), f"quantity:{n.cls}:{uc}", urep)
